@@ -71,6 +71,15 @@ def field_deepcopy(check):
                 ok = True
             if isinstance(fn, ast.Attribute) and fn.attr in ("repeat", "array", "tile", "full", "zeros", "ones"):
                 ok = True
+            # a helper of the class whose effect summary (alias.py) says it returns nothing of its arguments
+            # or of self: every return path builds a fresh array
+            if isinstance(fn, ast.Attribute) and isinstance(fn.value, ast.Name) and fn.value.id == init.params[0]:
+                g = proj.resolve(init.cls, fn.attr)
+                if g is not None:
+                    from ..common_rules import alias_analysis
+                    rs = alias_analysis(proj).summ[g.qualname].ret
+                    if not rs.objs and not rs.elts and any(isinstance(x, ast.Return) and x.value is not None for x in ast.walk(g.node)):
+                        ok = True
         if ok:
             fresh += 1
         else:
